@@ -244,6 +244,9 @@ func (e *Engine) verifyFunc(key string, prop string) (*FuncResult, error) {
 			if !clauseFor(en.Props, prop) {
 				continue
 			}
+			if en.Assumed {
+				continue
+			}
 			t := fc.spec(en.Expr, env)
 			fc.oblig(s, "post."+en.Name, t, "ensures "+en.Src, "", en.Props)
 			if strings.HasPrefix(en.Name, "lemma-") {
